@@ -65,6 +65,7 @@ fn label_in_text(line: &str) -> Option<Vec<String>> {
 fn compile_text(mapfile: &str, text: &str) -> Out<Vec<RawInstr>> {
     with_truth(|truth| {
         truth.apply_mapfile_str(mapfile, truth::Game::Th10)?;
+        { truth.validate_defs()?; }     // as every real pipeline does after loading mapfiles
         let mut block = front_half(truth, text, truth::LanguageKey::Anm, true)?;
         let ctx = truth.ctx();
         truth::passes::evaluate_const_vars::run(ctx)?;
@@ -79,6 +80,7 @@ fn masks_row(c: &Value) -> Value {
     // 1. real decompiler: one instruction per mask byte
     let raised = with_truth(|truth| {
         truth.apply_mapfile_str(&mapfile, truth::Game::Th10)?;
+        { truth.validate_defs()?; }     // as every real pipeline does after loading mapfiles
         let instrs: Vec<RawInstr> = (0..=255u32).map(|m| RawInstr {
             opcode: OP_MASK, args_blob: (m as i32).to_le_bytes().to_vec(), difficulty: m as u8, ..RawInstr::DEFAULTS
         }).collect();
